@@ -25,6 +25,7 @@ mod update;
 mod roundtrip;
 mod cache;
 mod rootcli;
+mod mutate;
 
 pub fn kp() -> Ed25519KeyPair {
     let doc = Ed25519KeyPair::generate_pkcs8(&SystemRandom::new()).unwrap();
@@ -134,6 +135,7 @@ async fn main() {
         "save_targets" => save::op_save_targets(sc).await,
         "filenames" => names::op_filenames(sc),
         "cache_roles" => names::op_cache_roles(sc).await,
+        "mutate_signed" => mutate::op_mutate_signed(sc).await,
         "gen_keyfiles" => rootcli::op_gen_keyfiles(sc),
         "root_check" => rootcli::op_root_check(sc),
         "cache_roundtrip" => cache::op_cache_roundtrip(sc).await,
